@@ -35,6 +35,25 @@ func c06Nalu(n int, naluType byte) []byte {
 	return append(out, body...)
 }
 
+// c06SliceHdr is the header of an IDR I slice for fileSPSHex / filePPSHex (frame_num 4 bits, poc
+// lsb 6 bits, CABAC, deblocking control present): first_mb 0, slice_type 7, pps 0, frame_num 0,
+// idr_pic_id 0, poc lsb 0, no_output 0, long_term 0, qp_delta 0, deblocking idc 0, alpha 0, beta 0
+// = 26 bits; the slice header (with the NAL header byte) occupies 5 bytes.
+var c06SliceHdr = []byte{0x88, 0x84, 0x03}
+
+const c06SliceHdrSize = 5
+
+// c06VideoNaluCbcs is c06Nalu with that slice header in front of the symbolic slice data.
+func c06VideoNaluCbcs(n int) []byte {
+	out := c06Nalu(n, 0x65)
+	if n < c06SliceHdrSize {
+		panic("harness: cbcs video NAL unit shorter than its slice header")
+	}
+	copy(out[5:8], c06SliceHdr)
+	out[8] = 0xc0 | out[8]&0x3f // last two header bits, then slice data
+	return out
+}
+
 func c06ParseSizes(s string) [][]int {
 	// "109,5;16" = sample 1 with NAL units of 109 and 5 bytes, sample 2 with one of 16
 	var samples [][]int
@@ -107,6 +126,15 @@ func VerifC06(codec string, scheme string, ivLen int, sizes string, extraBox boo
 					if k > 0 {
 						typ = 39 << 1 // prefix SEI: not a video NAL unit
 					}
+				}
+				if codec == "avc" && scheme == "cbcs" && k == 0 {
+					data = append(data, c06VideoNaluCbcs(n)...)
+					continue
+				}
+				if codec == "avc" && scheme == "cbcs" && k == 2 {
+					typ = 0x65 // a second slice of the same picture
+					data = append(data, c06VideoNaluCbcs(n)...)
+					continue
 				}
 				data = append(data, c06Nalu(n, typ)...)
 			}
@@ -258,6 +286,54 @@ func VerifC06(codec string, scheme string, ivLen int, sizes string, extraBox boo
 					}
 				}
 			}
+		}
+		if scheme == "cbcs" && codec == "avc" {
+			// video: per NAL unit, everything up to the end of the slice header is clear, the rest
+			// is protected with the 1:9 pattern: of every ten 16-byte blocks the first is AES-CBC
+			// encrypted, the chain restarting from the constant IV in every sub-sample
+			prot := make([]bool, len(c))
+			starts := map[int]bool{}
+			p := 0
+			for _, ss := range subs {
+				p += int(ss.BytesOfClearData)
+				if ss.BytesOfProtectedData > 0 {
+					starts[p] = true
+				}
+				for k := 0; k < int(ss.BytesOfProtectedData) && p < len(c); k++ {
+					prot[p] = true
+					p++
+				}
+			}
+			want := append([]byte{}, c...)
+			q := 0
+			for q+4 <= len(c) {
+				n := int(be32(c[q : q+4]))
+				isVideo := c[q+4]&0x1f <= 5
+				for k := 0; k < 4+n; k++ {
+					wantProt := isVideo && k >= 4+c06SliceHdrSize
+					vfy.Assert(prot[q+k] == wantProt, "cbcs: protected range starts at the end of the slice header and runs to the end of the NAL unit")
+				}
+				if isVideo && n > c06SliceHdrSize {
+					vfy.Assert(starts[q+4+c06SliceHdrSize], "cbcs: every video NAL unit has its own protected range")
+					base := q + 4 + c06SliceHdrSize
+					plen := n - c06SliceHdrSize
+					prev := append([]byte{}, iv16...)
+					for blk := 0; blk*16+16 <= plen; blk++ {
+						if blk%10 != 0 {
+							continue
+						}
+						off := base + blk*16
+						x := make([]byte, 16)
+						for k := range x {
+							x[k] = c[off+k] ^ prev[k]
+						}
+						block.Encrypt(want[off:off+16], x)
+						prev = want[off : off+16]
+					}
+				}
+				q += 4 + n
+			}
+			vfy.Assert(bytes.Equal(es, want), "video cbcs: 1:9 pattern CBC with the constant IV restarting in every sub-sample, other bytes clear")
 		}
 		if scheme == "cbcs" && codec == "aac" {
 			// audio: unpatterned CBC with the constant IV over whole blocks, rest clear
